@@ -103,6 +103,14 @@ func (p *Program) trackedPhis(fn *ssa.Function) map[*ssa.Phi]bool {
 		case *ssa.Phi:
 			if x.Block() != b {
 				m[x] = true
+			} else {
+				// a value merged here may itself be a merge made earlier
+				// (`a || b` overwritten on one branch, then tested)
+				for _, e := range x.Edges {
+					if ph, ok := e.(*ssa.Phi); ok && ph.Block() != b {
+						walk(ph, b, d+1)
+					}
+				}
 			}
 		case *ssa.UnOp:
 			if x.Op == token.NOT {
@@ -496,7 +504,13 @@ func (fi *FuncInfo) EdgeAtomN(e Edge, n TNode) (Atom, bool) {
 	if !ok {
 		return Atom{}, false
 	}
-	a := fi.atomOfSel(iff.Cond, e.From, from, 0)
+	var a Atom
+	if n.Sel != "" {
+		// merged values that are themselves earlier merges: read both levels
+		a = fi.atomOfN(iff.Cond, n, 0)
+	} else {
+		a = fi.atomOfSel(iff.Cond, e.From, from, 0)
+	}
 	if e.Succ == 1 {
 		a = a.Negate()
 	}
